@@ -6,7 +6,7 @@ for id in "$@"; do
     extra=""
     case $id in C04) extra="C01 C14";; C05) extra="C06 C02";; C06) extra="C05 C02";; C07) extra="C09 C01";; C08) extra="C09 C10 C11";; C09) extra="C07 C08";; C10) extra="C08 C07";; C11) extra="C08";; C12) extra="C13";; C13) extra="C12";; C15) extra="C16";; C16) extra="C15";; C17) extra="C03";; C18) extra="";; C20) extra="C03";; esac
     echo "=== $id change$n"
-    python3 lib/eval_benign.py /tmp/n_$id $id $n $id-b$n $extra 2>&1 | tail -14
+    python3 lib/eval_benign.py /tmp/n_$id $id $n $id-${SUFFIX:-b}$n $extra 2>&1 | tail -14
   done
 done
 echo BATCH-FINISHED
